@@ -55,8 +55,10 @@ func makeURLKey(u *url.URL) string {
 	}
 	// RFC 3986 §6.2.2.3: Path normalization (dot-segment removal) is handled by
 	// [url.URL.ResolveReference], which uses the RFC 3986 §5.2.4 algorithm.
-	base, _ := url.Parse(u.Scheme + "://" + u.Host)
-	normalized := base.ResolveReference(u)
+	normalized := u
+	if base, err := url.Parse(u.Scheme + "://" + u.Host); err == nil {
+		normalized = base.ResolveReference(u)
+	}
 
 	// RFC 3986 §6.2.2.1: Scheme is lowercased (already done by [url.Parse]).
 	scheme := normalized.Scheme
